@@ -103,7 +103,8 @@ fn main() {
                 println!("RUN {}", i);
                 std::io::stdout().flush().ok();
                 let mut st = spec::Stats::default();
-                let v = props::c18::exec_corpus(sp, &mut st);
+                engine::set_run_environment(sp);
+                let v = engine::on_spec_thread(sp, || props::c18::exec_corpus(sp, &mut st)).unwrap_or_default();
                 println!("DIG {} {}", i, v.last().copied().unwrap_or(0));
                 std::io::stdout().flush().ok();
             }
@@ -117,7 +118,8 @@ fn main() {
                 Err(_) => serde_json::from_str(&txt).expect("spec"),
             };
             let mut st = spec::Stats::default();
-            let v = props::c18::exec_corpus(&spec, &mut st);
+            engine::set_run_environment(&spec);
+            let v = engine::on_spec_thread(&spec, || props::c18::exec_corpus(&spec, &mut st)).unwrap_or_default();
             println!("{}", v.iter().map(|x| x.to_string()).collect::<Vec<_>>().join(" "));
             0
         }
